@@ -23,6 +23,9 @@ EVIDENCE = dict(
 def run(ctx):
     q = ctx.tier == "quick"
     gen = ctx.tlc("FiltersMC", "Filters_quick.cfg", workers=1 if q else 8, collect=True, timeout=1800)
+    # a second small alphabet whose values make the three Paeth distances tie (left 8 / above 11 / upper-left 10 ...)
+    gen2 = ctx.tlc("FiltersMC", "Filters_quick_paeth.cfg", workers=1 if q else 8, collect=True, timeout=1800)
+    gen["cases"] += gen2["cases"]
     cases = gen["cases"]
     ctx.exhaustive = True
     sim = ctx.tlc("FiltersMC", "Filters_sim.cfg", workers=1, simulate=2000 if q else 40000, depth=60, collect=True, count=False, timeout=1800)
